@@ -50,6 +50,9 @@ type c08Gates struct {
 func (g *c08Gates) hook(point string) {
 	g.mu.Lock()
 	ch, ok := g.armed[point]
+	if ok && g.parked[point] {
+		ok = false // one-shot: only the first goroutine to arrive is parked (a successor passing the same point runs on)
+	}
 	if ok {
 		g.parked[point] = true
 	}
@@ -58,6 +61,24 @@ func (g *c08Gates) hook(point string) {
 		<-ch
 	}
 }
+
+// c08LogPoints: log statements of the shard manager's registry functions that are emitted outside any lock on the
+// pinned tree; the harness can park the old incarnation's cleanup there like at a vfYield point ("log:<message>").
+var c08LogPoints = []string{
+	"log:Remove local ack channel for shard",
+	"log:Force remove local ack channel for shard",
+	"log:Remove local receiver cancel function for shard",
+	"log:UnregisterShard",
+	"log:UnregisterShard completed",
+}
+
+var c08LogPointSet = func() map[string]bool {
+	m := map[string]bool{}
+	for _, p := range c08LogPoints {
+		m[p] = true
+	}
+	return m
+}()
 
 func (g *c08Gates) arm(point string) {
 	g.mu.Lock()
@@ -180,6 +201,13 @@ func c08Run(t *testing.T, c c08Case) (res c08Result) {
 	hook := func(p string) { gates.hook(p) }
 	vfYieldHook.Store(&hook)
 	defer vfYieldHook.Store(nil)
+	logHook := func(msg string) {
+		if p := "log:" + msg; c08LogPointSet[p] {
+			gates.hook(p)
+		}
+	}
+	vfLogHook.Store(&logHook)
+	defer vfLogHook.Store(nil)
 	leak, p := vfBubble(t, func() {
 		w := newRWWorld(rwCase{NS: c.NS, NT: c.NT})
 		var guardPanic = func(what string, f func()) {
@@ -361,7 +389,7 @@ func c08Run(t *testing.T, c c08Case) (res c08Result) {
 			}
 			check()
 		}
-		for _, pnt := range []string{"unregister.window", "sender.closed"} {
+		for _, pnt := range append([]string{"unregister.window", "sender.closed"}, c08LogPoints...) {
 			gates.release(pnt)
 		}
 		res.leftovers = w.endAll()
@@ -382,7 +410,7 @@ func c08Run(t *testing.T, c c08Case) (res c08Result) {
 	return res
 }
 
-const c08Rule = "routing world with overlapping incarnations: reopen(shard, order) re-establishes a sender/receiver shard's stream while the previous incarnation is still live, the generated order deciding whether the old incarnation's cleanup runs before or after the successor registered (the harness holds the delivery of the cancellation to the old stream, or the completion of the successor's stream open); window(point, action) parks the old sender at a vfYield schedule point (between UnregisterShard's unlock and its second removal; after the sender closed its channel while still registered) and runs a successor registration / a peer's register announcement for the same shard through the real NotifyMsg / a delivery / a watermark broadcast inside the window; interleaved emits and watermark batches; oracle at every quiescent point with one live incarnation whose predecessors returned: ownership timestamp, delivery channel, ack channel, cancel function and active receiver are the live incarnation's and a message to the shard reaches its stream; no panic escapes; after ending everything nothing is registered and no goroutine is left; non-trivial = an old incarnation's cleanup ran after its successor registered, or an action ran inside a window; distinct = distinct histories"
+const c08Rule = "routing world with overlapping incarnations: reopen(shard, order) re-establishes a sender/receiver shard's stream while the previous incarnation is still live, the generated order deciding whether the old incarnation's cleanup runs before or after the successor registered (the harness holds the delivery of the cancellation to the old stream, or the completion of the successor's stream open); window(point, action) parks the old incarnation at a schedule point - a vfYield hook (between UnregisterShard's unlock and its second removal; after the sender closed its channel while still registered) or one of 5 log statements of the shard manager's registry functions that are emitted outside any lock (the test logger is the schedule point: no hook needed) - and runs a successor registration / a peer's register announcement for the same shard through the real NotifyMsg / a delivery / a watermark broadcast inside the window; interleaved emits and watermark batches; oracle at every quiescent point with one live incarnation whose predecessors returned: ownership timestamp, delivery channel, ack channel, cancel function and active receiver are the live incarnation's and a message to the shard reaches its stream; no panic escapes; after ending everything nothing is registered and no goroutine is left; non-trivial = an old incarnation's cleanup ran after its successor registered, or an action ran inside a window; distinct = distinct histories"
 
 func c08Gen(t *rapid.T) c08Case {
 	c := c08Case{NS: rapid.IntRange(1, 2).Draw(t, "ns"), NT: rapid.IntRange(1, 3).Draw(t, "nt")}
@@ -395,7 +423,7 @@ func c08Gen(t *rapid.T) c08Case {
 		case x < 30:
 			c.Ops = append(c.Ops, c08Op{K: "reopen", Side: side, I: idx, Order: rapid.SampledFrom([]string{"oldFirst", "newFirst", "newFirst", "openFails"}).Draw(t, "order")})
 		case x < 50:
-			pt := rapid.SampledFrom([]string{"unregister.window", "sender.closed"}).Draw(t, "point")
+			pt := rapid.SampledFrom(append([]string{"unregister.window", "sender.closed", "unregister.window", "sender.closed"}, c08LogPoints...)).Draw(t, "point")
 			acts := []string{"successor", "announce", "deliver", "watermark", "none"}
 			c.Ops = append(c.Ops, c08Op{K: "window", Side: side, I: idx, Point: pt, Act: rapid.SampledFrom(acts).Draw(t, "act")})
 		case x < 65:
